@@ -609,8 +609,21 @@ def angle(a):
 # ---- reductions ----------------------------------------------------------------
 
 
+def moveaxis(a, source, destination):
+    return ndarray(_np.moveaxis(_obj(a), source, destination))
+
+
+def swapaxes(a, a1, a2):
+    return ndarray(_np.swapaxes(_obj(a), a1, a2))
+
+
 def sum(a, axis=None):
     v = _obj(a)
+    if isinstance(axis, (tuple, list)):
+        out = ndarray(v)
+        for ax in sorted((int(x) % v.ndim for x in axis), reverse=True):
+            out = sum(out, axis=ax)
+        return out
     if axis is None:
         acc = _SC0
         for x in v.flatten():
